@@ -9,12 +9,31 @@
            17 k base min max  omax minlevel maxlevel
               st nmajor major.. nminor minor..                      Ticks(o)      (st 0 ok, 2 panic)
               nlev { level count st nticks tick.. }*                CountTicks / TicksAtLevel
-              st nmin nmax map(nmin) map(nmax)  st nmin2 nmax2      Nice(o) once (then Map of the new ends), twice
-              st nmajor' major'..                                   Ticks(o) after Nice(o)
+              nomax nminlevel nmaxlevel                             the options o' of Nice and of the calls after it
+              st nmin nmax map(nmin) map(nmax)  st nmin2 nmax2      Nice(o') once (then Map of the new ends), twice
+              st nmajor' major'..                                   Ticks(o') after Nice(o')
 
    Floor/ceil decisions within rounding distance of their threshold are "borderline"
-   (DESIGN 4.5): when the observed result differs from the exact model's AND such a decision
-   lies on the path, the case is counted as borderline instead of mismatch. *)
+   (DESIGN 4.5).  Every group of observables is first compared with the exact model (code 0).
+   Only when that fails, the ADMISSIBLE SET is consulted: the model's outcome with each
+   floor/ceil whose argument lies within the window [near_round] of an integer taken either
+   way (Linear), each undecided slack decision of [log_exps] taken either way and each
+   candidate minor tick within 1e-12 (relative) of a domain end kept or dropped (Log).  A member
+   of that set is accepted as borderline (code 1); anything else is a mismatch.
+
+   Groups (the position reported with a mismatch):
+     10 Ticks(o)   20 CountTicks/TicksAtLevel per level (and CountTicks = len TicksAtLevel)
+     21 the observed CountTicks values are non-increasing in the level
+     30 Nice(o)    35 Nice never shrinks the domain, new ends finite (observed values, every Max)
+     (Nice and the calls after it use the options o' recorded in the line; o' = o except where o
+     reaches levels whose spacing overflows float64)
+     36 Ticks(o') after Nice on the same object = the model's Ticks on the OBSERVED niced domain
+     37 second Nice(o) = the model's Nice on the observed niced domain (every Max)
+     40 idempotent (Max >= 3)   41 first/last major tick after Nice are the new ends (Max >= 3,
+        Nice found a level and both candidate ends of that level are finite float64 values)
+     43 Map(new Min) = 0, Map(new Max) = 1
+     45 Nice added at most one major tick spacing at each end (Max >= 3; spacing = distance /
+        ratio of the first two and of the last two observed major ticks after Nice) *)
 From Coq Require Import Qround.
 From MM Require Import Base.Num Model.Ticks.
 Local Open Scope Q_scope.
@@ -26,24 +45,30 @@ Definition e12 : Q := 1 # 1000000000000.
 Definition table_cnt (wlo : Z) (vs : list Z) (lft rgt : Z) (l : Z) : Z :=
   if (l <? wlo)%Z then lft else nth (Z.to_nat (l - wlo)) vs rgt.
 
-Definition check_findlevel : parser (list Z) :=
+Record flcase := mkFl { fc_o : tickopts; fc_guess : Z; fc_wlo : Z; fc_vs : list Z; fc_left : Z; fc_right : Z;
+                        fc_ok : Z; fc_lev : Z }.
+Definition p_flcase : parser flcase :=
   do mx <- pZ; do minl <- pZ; do maxl <- pZ; do guess <- pZ;
   do wlo <- pZ; do vs <- plist pZ; do lft <- pZ; do rgt <- pZ;
   do ok <- pZ; do lev <- pZ;
-  let o := mkOpts mx minl maxl in
-  let cnt := table_cnt wlo vs lft rgt in
-  pend (match find_level o cnt guess with
-        | FL_ok l =>
-            let s := match level_bounds o with
-                     | Some (lo, hi) => if (guess <? lo)%Z then lo else if (hi <? guess)%Z then hi else guess
-                     | None => 0%Z end in
-            let tag := (if (l <=? s)%Z then 1 else 2)%Z in
-            if (ok =? 1)%Z && (lev =? l)%Z then verdict V_OK tag (-1) [] else verdict V_MISMATCH tag 0 [1%Z; l]
-        | FL_fail =>
-            let tag := match level_bounds o with None => 0%Z | Some _ => if (mx <? 1)%Z then 0%Z else 4%Z end in
-            if (ok =? 0)%Z && (lev =? 0)%Z then verdict V_OK tag (-1) [] else verdict V_MISMATCH tag 0 [0%Z; 0%Z]
-        | FL_fuel => verdict V_MISMATCH 0 0 [2%Z]
-        end).
+  pret (mkFl (mkOpts mx minl maxl) guess wlo vs lft rgt ok lev).
+Definition fc_cnt (c : flcase) : Z -> Z := table_cnt (fc_wlo c) (fc_vs c) (fc_left c) (fc_right c).
+
+Definition judge_findlevel (c : flcase) : list Z :=
+  let o := fc_o c in let guess := fc_guess c in let ok := fc_ok c in let lev := fc_lev c in
+  match find_level o (fc_cnt c) guess with
+  | FL_ok l =>
+      let s := match level_bounds o with
+               | Some (lo, hi) => if (guess <? lo)%Z then lo else if (hi <? guess)%Z then hi else guess
+               | None => 0%Z end in
+      let tag := (if (l <=? s)%Z then 1 else 2)%Z in
+      if (ok =? 1)%Z && (lev =? l)%Z then verdict V_OK tag (-1) [] else verdict V_MISMATCH tag 0 [1%Z; l]
+  | FL_fail =>
+      let tag := match level_bounds o with None => 0%Z | Some _ => if (o_max o <? 1)%Z then 0%Z else 4%Z end in
+      if (ok =? 0)%Z && (lev =? 0)%Z then verdict V_OK tag (-1) [] else verdict V_MISMATCH tag 0 [0%Z; 0%Z]
+  | FL_fuel => verdict V_MISMATCH 0 0 [2%Z]
+  end.
+Definition check_findlevel : parser (list Z) := do c <- p_flcase; pend (judge_findlevel c).
 
 (* ---------- shared: comparing tick lists ---------- *)
 Fixpoint close_list (tol : Q -> Q) (exp : list Q) (obs : list xreal) : bool :=
@@ -52,6 +77,18 @@ Fixpoint close_list (tol : Q -> Q) (exp : list Q) (obs : list xreal) : bool :=
   | e :: et, XFin o :: ot => within (tol e) e o && close_list tol et ot
   | _, _ => false
   end.
+(* the same with OPTIONAL expected elements (flag true): an optional element may be missing
+   from the observation; everything observed must still be an expected element, in order *)
+Fixpoint close_list_opt (tol : Q -> Q) (exp : list (Q * bool)) (obs : list xreal) : bool :=
+  match exp with
+  | [] => match obs with [] => true | _ => false end
+  | (e, opt) :: et =>
+      match obs with
+      | XFin o :: ot => if within (tol e) e o then close_list_opt tol et ot else opt && close_list_opt tol et obs
+      | [] => opt && close_list_opt tol et []
+      | _ => false
+      end
+  end.
 
 Record levobs := mkLev { lv_level : Z; lv_count : Z; lv_st : Z; lv_ticks : list xreal }.
 Definition p_lev : parser levobs := do l <- pZ; do c <- pZ; do st <- pZ; do t <- plist pX; pret (mkLev l c st t).
@@ -59,69 +96,127 @@ Definition p_lev : parser levobs := do l <- pZ; do c <- pZ; do st <- pZ; do t <-
 Record scobs := mkSc {
   so_st : Z; so_major : list xreal; so_minor : list xreal;
   so_levels : list levobs;
+  so_no : tickopts;
   so_nst : Z; so_nmin : xreal; so_nmax : xreal; so_map0 : xreal; so_map1 : xreal;
   so_nst2 : Z; so_nmin2 : xreal; so_nmax2 : xreal;
   so_st3 : Z; so_major3 : list xreal }.
 Definition p_scobs : parser scobs :=
   do st <- pZ; do ma <- plist pX; do mi <- plist pX; do lv <- plist p_lev;
+  do nomax <- pZ; do nminl <- pZ; do nmaxl <- pZ;
   do nst <- pZ; do a <- pX; do b <- pX; do m0 <- pX; do m1 <- pX; do nst2 <- pZ; do a2 <- pX; do b2 <- pX;
   do st3 <- pZ; do ma3 <- plist pX;
-  pret (mkSc st ma mi lv nst a b m0 m1 nst2 a2 b2 st3 ma3).
+  pret (mkSc st ma mi lv (mkOpts nomax nminl nmaxl) nst a b m0 m1 nst2 a2 b2 st3 ma3).
+
+(* a scale case: inputs and observations *)
+Record sccase := mkCase { sc_base : Z; sc_mn : Q; sc_mx : Q; sc_o : tickopts; sc_ob : scobs }.
+Definition p_sccase : parser sccase :=
+  do base <- pZ; do mn <- pQ; do mx <- pQ; do omax <- pZ; do minl <- pZ; do maxl <- pZ;
+  do ob <- p_scobs;
+  pret (mkCase base mn mx (mkOpts omax minl maxl) ob).
 
 Definition first_last (l : list xreal) : option (xreal * xreal) :=
   match l with [] => None | x :: _ => Some (x, last l x) end.
+Definition first_two (l : list xreal) : option (Q * Q) :=
+  match l with XFin x :: XFin y :: _ => Some (x, y) | _ => None end.
+Definition last_two (l : list xreal) : option (Q * Q) :=
+  match rev l with XFin y :: XFin x :: _ => Some (x, y) | _ => None end.
 
-(* verdict assembly: [checks] = list of (passed, position); first failure decides *)
-Fixpoint first_fail (l : list (bool * Z)) : option Z :=
-  match l with [] => None | (true, _) :: t => first_fail t | (false, p) :: _ => Some p end.
-Definition conclude (tag : Z) (amb : bool) (checks : list (bool * Z)) : list Z :=
-  match first_fail checks with
-  | None => verdict V_OK tag (-1) []
-  | Some p => if amb then verdict V_BORDERLINE tag p [] else verdict V_MISMATCH tag p []
+(* verdict assembly.  A group of observables yields a code: 0 the exact model's outcome was
+   observed, 1 not that but a member of the admissible set (only computed then), 2 neither. *)
+Definition grp (exact : bool) (adm : unit -> bool) : Z := if exact then 0%Z else if adm tt then 1%Z else 2%Z.
+Definition law (holds amb : bool) : Z := if holds then 0%Z else if amb then 1%Z else 2%Z.
+Fixpoint first_code (c : Z) (l : list (Z * Z)) : option Z :=
+  match l with [] => None | (k, p) :: t => if (c <=? k)%Z then Some p else first_code c t end.
+Definition conclude (tag : Z) (gs : list (Z * Z)) : list Z :=
+  match first_code 2 gs with
+  | Some p => verdict V_MISMATCH tag p []
+  | None => match first_code 1 gs with
+            | Some p => verdict V_BORDERLINE tag p []
+            | None => verdict V_OK tag (-1) []
+            end
   end.
 
-(* laws on the implementation's own outputs after Nice (any Max >= 3): idempotent, and the
-   first and last major tick of the niced scale are its bounds *)
-Definition nice_laws (omax : Z) (found : bool) (tolv : Q -> Q) (ob : scobs) : list (bool * Z) :=
-  match so_nmin ob, so_nmax ob with
-  | XFin a, XFin b =>
-      [ ((omax <? 3)%Z ||
-         ((so_nst2 ob =? 0)%Z && xwithin (tolv a) (XFin a) (so_nmin2 ob) && xwithin (tolv b) (XFin b) (so_nmax2 ob)), 40%Z);
-        ((omax <? 3)%Z || negb found || Qeqb a b ||
-         match first_last (so_major3 ob) with
-         | Some (f, l) => xwithin (tolv a) (XFin a) f && xwithin (tolv b) (XFin b) l
-         | None => false
-         end, 41%Z);
-        (* the niced object is a consistent scale: Map(new Min) = 0, Map(new Max) = 1 *)
-        (Qeqb a b || (xwithin e12 (XFin 0) (so_map0 ob) && xwithin e12 (XFin 1) (so_map1 ob)), 43%Z) ]
-  | _, _ => [(false, 42%Z)]
+(* CountTicks is non-increasing in the level: on the observed counts themselves (levels ascending) *)
+Fixpoint counts_noninc (l : list levobs) : bool :=
+  match l with
+  | a :: ((b :: _) as t) => ((lv_level b <? lv_level a)%Z || (lv_count b <=? lv_count a)%Z) && counts_noninc t
+  | _ => true
   end.
+
+Definition zrange (a : Z) (n : nat) : list Z := map (fun i => (a + Z.of_nat i)%Z) (seq 0 n).
+Definition zmin_list (l : list Z) : Z := match l with [] => 0%Z | x :: t => fold_left Z.min t x end.
+Definition zmax_list (l : list Z) : Z := match l with [] => 0%Z | x :: t => fold_left Z.max t x end.
 
 (* ---------- kind 1: Linear ---------- *)
 (* an integer lies within eps of q: floor/ceil of the float quantity may land on either side *)
-Definition near_int (q : Q) : bool :=
+Definition near_round (q : Q) : option Z :=
   let q := Qred q in
   let n := qfl (q + (1 # 2)) in
-  Qleb (Qabs (q - inject_Z n)) ((4 # 1000000000000000) * (1 + Qabs q)).
-Definition lin_amb_level (base eb : Z) (mn mx : Q) (roundOut : bool) (level : Z) : bool :=
-  let sp := lin_spacing base eb level in
+  if Qleb (Qabs (q - inject_Z n)) ((4 # 1000000000000000) * (1 + Qabs q)) then Some n else None.
+Definition near_int (q : Q) : bool := match near_round q with Some _ => true | None => false end.
+(* admissible values of floor(q) / ceil(q) computed in floats *)
+Definition floor_adm (q : Q) : list Z := match near_round q with Some n => [(n - 1)%Z; n] | None => [qfl q] end.
+Definition ceil_adm (q : Q) : list Z := match near_round q with Some n => [n; (n + 1)%Z] | None => [qcl q] end.
+Definition lin_first_last_adm (mn mx sp : Q) (roundOut : bool) : list Z * list Z :=
   let slack := (mx - mn) * slack_factor in
-  if roundOut then near_int ((mn + slack) / sp) || near_int ((mx - slack) / sp)
-  else near_int ((mn - slack) / sp) || near_int ((mx + slack) / sp).
-Fixpoint amb_window (f : Z -> bool) (n : nat) (l : Z) : bool :=
-  match n with O => false | S k => f l || amb_window f k (l + 1)%Z end.
-(* A floor/ceil within rounding of its threshold can change a count by one (two decisions:
-   by two).  That matters for the level search only at a level whose exact count is within 2
-   of Max, and for the tick values at the chosen level and the one below.  The levels between
-   the code's guess and the outcome lie within [c-6, c+12]; clipped to the level window. *)
-Definition lin_amb (o : tickopts) (base eb : Z) (mn mx : Q) (roundOut : bool) (r : flres) : bool :=
+  if roundOut then (floor_adm ((mn + slack) / sp), ceil_adm ((mx - slack) / sp))
+  else (ceil_adm ((mn - slack) / sp), floor_adm ((mx + slack) / sp)).
+Definition lin_cnt_max (base eb : Z) (mn mx : Q) (roundOut : bool) (l : Z) : Z :=
+  let '(F, L) := lin_first_last_adm mn mx (lin_spacing base eb l) roundOut in (zmax_list L - zmin_list F + 1)%Z.
+(* the observed list is the level's tick list for an admissible pair (first, last) [and the
+   reported count is that pair's] *)
+Definition lin_at_adm (base eb : Z) (mn mx : Q) (tolv : Q -> Q) (l : Z) (cnt : option Z) (obs : list xreal) : bool :=
+  let sp := lin_spacing base eb l in
+  let '(F, L) := lin_first_last_adm mn mx sp false in
+  existsb (fun f => existsb (fun la =>
+     match cnt with Some c => (c =? la - f + 1)%Z | None => true end &&
+     close_list tolv (tick_seq (Z.to_nat (la - f + 1)) f sp) obs) L) F.
+(* no level fits, admissibly: the exact search found level c close to the top of the window and
+   every level from c up may have more than Max ticks *)
+Definition lin_none_adm (o : tickopts) (base eb : Z) (mn mx : Q) (roundOut : bool) (hi : Z) (r : flres) : bool :=
+  match r with
+  | FL_ok c => (hi - c <=? 3)%Z &&
+               forallb (fun l => (o_max o <? lin_cnt_max base eb mn mx roundOut l)%Z) (zrange c (Z.to_nat (hi - c + 1)))
+  | _ => false
+  end.
+(* Ticks(o), admissibly: for a level L of the window near the exact one, major is an admissible
+   tick list of level L with at most Max elements, minor one of level L-1 with more than Max
+   elements unless L is the lowest level allowed (the finest level that fits) *)
+Definition lin_ticks_adm (o : tickopts) (base eb : Z) (mn mx : Q) (tolv : Q -> Q) (r : flres)
+    (major : list xreal) (minor : option (list xreal)) : bool :=
   match level_bounds o with
   | None => false
   | Some (lo, hi) =>
-      let c := match r with FL_ok l => l | _ => hi end in
-      let a := Z.max lo (c - 6) in let b := Z.min hi (c + 12) in
-      amb_window (fun l => ((Z.abs (lin_count base eb mn mx roundOut l - o_max o) <=? 2)%Z || (l =? c)%Z || (l =? c - 1)%Z)
-                           && lin_amb_level base eb mn mx roundOut l) (Z.to_nat (b - a + 1)) a
+      (1 <=? o_max o)%Z &&
+      (let c := match r with FL_ok l => l | _ => (hi + 1)%Z end in
+       existsb (fun L => (lo <=? L)%Z && (L <=? hi)%Z && (Z.of_nat (length major) <=? o_max o)%Z &&
+                  lin_at_adm base eb mn mx tolv L None major &&
+                  match minor with
+                  | Some mi => ((L =? lo)%Z || (o_max o <? Z.of_nat (length mi))%Z) &&
+                               lin_at_adm base eb mn mx tolv (L - 1) None mi
+                  | None => (L =? lo)%Z || (o_max o <? lin_cnt_max base eb mn mx false (L - 1))%Z
+                  end) (zrange (c - 3) 7)
+       || (match major, minor with [], None => true | [], Some [] => true | _, _ => false end &&
+           lin_none_adm o base eb mn mx false hi r))
+  end.
+(* Nice(o) on the ordered (widened) domain [smn, smx], admissibly *)
+Definition lin_nice_adm (o : tickopts) (base eb : Z) (smn smx : Q) (tolv : Q -> Q) (rn : flres) (a b : Q) : bool :=
+  match level_bounds o with
+  | None => false
+  | Some (lo, hi) =>
+      (1 <=? o_max o)%Z &&
+      (let c := match rn with FL_ok l => l | _ => (hi + 1)%Z end in
+       existsb (fun L => (lo <=? L)%Z && (L <=? hi)%Z &&
+                  ((L =? lo)%Z || (o_max o <? lin_cnt_max base eb smn smx true (L - 1))%Z) &&
+                  let sp := lin_spacing base eb L in
+                  let '(F, La) := lin_first_last_adm smn smx sp true in
+                  existsb (fun f => existsb (fun la =>
+                     (la - f + 1 <=? o_max o)%Z &&
+                     let nmn := inject_Z f * sp in let nmx := inject_Z la * sp in
+                     let x := if f64_fin nmn && Qleb nmn smn then nmn else smn in
+                     let y := if f64_fin nmx && Qleb smx nmx then nmx else smx in
+                     within (tolv x) x a && within (tolv y) y b) La) F) (zrange (c - 3) 7)
+       || (within (tolv smn) smn a && within (tolv smx) smx b && lin_none_adm o base eb smn smx true hi rn))
   end.
 
 (* Above level [lin_cap] the spacing eb^(l/2) >= 2^(l/2) exceeds 8 (|mn| + |mx| + 1), so the
@@ -132,89 +227,205 @@ Definition lin_cap (mn mx : Q) : Z := 2 * (Z.log2 (Qceiling (Qabs mn + Qabs mx +
 Definition lin_count_capped (base eb : Z) (mn mx : Q) (roundOut : bool) (level : Z) : Z :=
   lin_count base eb mn mx roundOut (Z.min level (lin_cap mn mx)).
 
-Definition lin_level_check (base eb : Z) (mn mx : Q) (tolv : Q -> Q) (lv : levobs) : bool * bool :=
-  let l := lv_level lv in
-  let amb := lin_amb_level base eb mn mx false l in
-  let c := lin_count base eb mn mx false l in
-  let ok := (lv_st lv =? 0)%Z && (lv_count lv =? c)%Z && close_list tolv (lin_ticks_at base eb mn mx false l) (lv_ticks lv) in
-  (ok, amb).
+(* the model's Ticks / Nice given the result of the level search (computed once per call:
+   Proofs.CheckC17.lin_ticks_from_eq, lin_nice_from_eq: these ARE lin_ticks_gen, lin_nice_gen) *)
+Definition lin_order (mn mx : Q) : Q * Q := if Qltb mx mn then (mx, mn) else (mn, mx).
+Definition lin_start (mn mx : Q) : Q * Q :=
+  if Qeqb mn mx then (mn - (1 # 2), mx + (1 # 2)) else lin_order mn mx.
+Definition lin_search (o : tickopts) (base eb : Z) (mn mx : Q) (roundOut : bool) : flres :=
+  find_level o (lin_count_capped base eb mn mx roundOut) 0.
+Definition lin_ticks_from (base eb : Z) (mn mx : Q) (o : tickopts) (r : flres) : ticks_res :=
+  if (o_max o <=? 0)%Z then TR_none
+  else if Qeqb mn mx then TR_ticks [mn] [mn]
+  else let '(a, b) := lin_order mn mx in
+       match r with
+       | FL_ok l => TR_ticks (lin_ticks_at base eb a b false l) (lin_ticks_at base eb a b false (l - 1))
+       | _ => TR_none
+       end.
+Definition lin_nice_from (base eb : Z) (smn smx : Q) (rn : flres) : Q * Q :=
+  match rn with
+  | FL_ok l =>
+      let sp := lin_spacing base eb l in
+      let '(f, la) := lin_first_last smn smx sp true in
+      let nmn := inject_Z f * sp in let nmx := inject_Z la * sp in
+      (if f64_fin nmn && Qleb nmn smn then nmn else smn, if f64_fin nmx && Qleb smx nmx then nmx else smx)
+  | _ => (smn, smx)
+  end.
 
-Definition check_linear : parser (list Z) :=
-  do base <- pZ; do mn <- pQ; do mx <- pQ; do omax <- pZ; do minl <- pZ; do maxl <- pZ;
-  do ob <- p_scobs;
-  let o := mkOpts omax minl maxl in
+(* both candidate ends of the level Nice chose are finite float64 values (at a level whose spacing
+   overflows float64 only the multiple 0 is): only then can the laws "first and last major tick
+   are the new ends" / "at most one spacing added" be demanded *)
+Definition lin_nice_rep_b (base eb : Z) (smn smx : Q) (rn : flres) : bool :=
+  match rn with
+  | FL_ok l => let sp := lin_spacing base eb l in
+               let '(f, la) := lin_first_last smn smx sp true in
+               f64_fin (inject_Z f * sp) && f64_fin (inject_Z la * sp)
+  | _ => false
+  end.
+
+Definition ticks_exact (t : ticks_res) (st : Z) (tolv : Q -> Q) (major : list xreal) (minor : option (list xreal)) : bool :=
+  match t with
+  | TR_ticks ma mi => (st =? 0)%Z && close_list tolv ma major &&
+                      match minor with Some m => close_list tolv mi m | None => true end
+  | TR_none => (st =? 0)%Z && match major, minor with [], None => true | [], Some [] => true | _, _ => false end
+  | TR_panic => (st =? 2)%Z
+  end.
+
+Definition lin_level_exact (base eb : Z) (mn mx : Q) (tolv : Q -> Q) (lv : levobs) : bool :=
+  let l := lv_level lv in
+  (lv_st lv =? 0)%Z && (lv_count lv =? lin_count base eb mn mx false l)%Z &&
+  close_list tolv (lin_ticks_at base eb mn mx false l) (lv_ticks lv).
+Definition lin_level_adm (base eb : Z) (mn mx : Q) (tolv : Q -> Q) (lv : levobs) : bool :=
+  (lv_st lv =? 0)%Z && (lv_count lv =? Z.of_nat (length (lv_ticks lv)))%Z &&
+  lin_at_adm base eb mn mx tolv (lv_level lv) (Some (lv_count lv)) (lv_ticks lv).
+
+(* is one of the floor/ceil decisions at this level within the window? (evidence tag only) *)
+Definition lin_amb_level (base eb : Z) (mn mx : Q) (roundOut : bool) (level : Z) : bool :=
+  let sp := lin_spacing base eb level in
+  let slack := (mx - mn) * slack_factor in
+  if roundOut then near_int ((mn + slack) / sp) || near_int ((mx - slack) / sp)
+  else near_int ((mn - slack) / sp) || near_int ((mx + slack) / sp).
+
+Definition judge_linear (c : sccase) : list Z :=
+  let base := sc_base c in let mn := sc_mn c in let mx := sc_mx c in let o := sc_o c in let ob := sc_ob c in
+  let omax := o_max o in
+  let no := so_no ob in let nomax := o_max no in
   let w := Qabs (mx - mn) in
   let w := if Qeqb w 0 then 1 else w in
   let tolv := fun v : Q => e9 * Qabs v + e9 * w in
   let reversed := Qltb mx mn in
-  let '(a, b) := if reversed then (mx, mn) else (mn, mx) in
-  pend (match lin_ebase base with
-        | None =>
-            (* Base = 1 or negative: ebase panics wherever a level is needed *)
-            let degenerate := Qeqb mn mx in
-            conclude 0 false
-              [ (if (omax <=? 0)%Z || degenerate then (so_st ob =? 0)%Z else (so_st ob =? 2)%Z, 1%Z);
-                ((so_nst ob =? 2)%Z, 2%Z) ]
-        | Some eb =>
-            let r := if Qeqb mn mx then FL_fail else find_level o (lin_count_capped base eb a b false) 0 in
-            let amb_t := if Qeqb mn mx then false else lin_amb o base eb a b false r in
-            let t := lin_ticks_gen lin_count_capped base mn mx o 0 in
-            let ticks_ok :=
-              match t with
-              | TR_ticks ma mi => (so_st ob =? 0)%Z && close_list tolv ma (so_major ob) && close_list tolv mi (so_minor ob)
-              | TR_none => (so_st ob =? 0)%Z && match so_major ob, so_minor ob with [], [] => true | _, _ => false end
-              | TR_panic => (so_st ob =? 2)%Z
-              end in
-            (* per-level CountTicks / TicksAtLevel *)
-            let lv := map (lin_level_check base eb mn mx tolv) (so_levels ob) in
-            let lv_ok := forallb fst lv in let lv_amb := existsb snd lv in
-            (* Nice *)
-            let '(na, nb) := if Qeqb mn mx then (mn - (1 # 2), mx + (1 # 2)) else (a, b) in
-            let rn := find_level o (lin_count_capped base eb na nb true) 0 in
-            let amb_n := lin_amb o base eb na nb true rn in
-            let nice_ok :=
-              match lin_nice_gen lin_count_capped base mn mx o 0 with
-              | NR_dom x y => (so_nst ob =? 0)%Z && xwithin (tolv x) (XFin x) (so_nmin ob) && xwithin (tolv y) (XFin y) (so_nmax ob)
-              | NR_panic => (so_nst ob =? 2)%Z
-              end in
-            let changed := match lin_nice_gen lin_count_capped base mn mx o 0 with NR_dom x y => negb (Qeqb x na && Qeqb y nb) | _ => false end in
-            let tag := Z.lor (match r with FL_ok _ => 1 | _ => 0 end)
-                      (Z.lor (if reversed then 2 else 0)
-                      (Z.lor (if Qeqb mn mx then 4 else 0)
-                      (Z.lor (match rn with FL_ok _ => 8 | _ => 0 end)
-                      (Z.lor (if changed then 16 else 0)
-                      (Z.lor (if negb (minl =? 0)%Z || negb (maxl =? 0)%Z then 32 else 0)
-                      (Z.lor (if (base =? 0)%Z then 0 else 64)
-                             (if amb_t || amb_n || lv_amb then 128 else 0)))))))%Z in
-            match first_fail [(ticks_ok, 10%Z)] with
-            | Some p => if amb_t then verdict V_BORDERLINE tag p [] else verdict V_MISMATCH tag p []
-            | None =>
-              match first_fail [(lv_ok, 20%Z)] with
-              | Some p => if lv_amb then verdict V_BORDERLINE tag p [] else verdict V_MISMATCH tag p []
-              | None =>
-                match first_fail [(nice_ok, 30%Z)] with
-                | Some p => if amb_n then verdict V_BORDERLINE tag p [] else verdict V_MISMATCH tag p []
-                | None => conclude tag amb_n (nice_laws omax (match rn with FL_ok _ => true | _ => false end) tolv ob)
-                end
-              end
-            end
-        end).
+  let degenerate := Qeqb mn mx in
+  match lin_ebase base with
+  | None =>
+      (* Base = 1 or negative (outside the property's bases): ebase panics wherever a level is
+         needed; Nice has then already widened/ordered the domain, so Ticks afterwards panics too *)
+      conclude 0
+        [ (law (if (omax <=? 0)%Z || degenerate then (so_st ob =? 0)%Z else (so_st ob =? 2)%Z) false, 1%Z);
+          (law (so_nst ob =? 2)%Z false, 2%Z);
+          (law (so_nst2 ob =? 2)%Z false, 3%Z);
+          (law (if (nomax <=? 0)%Z then (so_st3 ob =? 0)%Z else (so_st3 ob =? 2)%Z) false, 4%Z) ]
+  | Some eb =>
+      let '(a, b) := lin_order mn mx in
+      let r := if degenerate then FL_fail else lin_search o base eb a b false in
+      let g10 := grp (ticks_exact (lin_ticks_from base eb mn mx o r) (so_st ob) tolv (so_major ob) (Some (so_minor ob)))
+                     (fun _ => negb degenerate && (so_st ob =? 0)%Z &&
+                               lin_ticks_adm o base eb a b tolv r (so_major ob) (Some (so_minor ob))) in
+      (* per-level CountTicks / TicksAtLevel *)
+      let g20 := grp (forallb (lin_level_exact base eb mn mx tolv) (so_levels ob))
+                     (fun _ => forallb (fun lv => lin_level_exact base eb mn mx tolv lv || lin_level_adm base eb mn mx tolv lv)
+                                       (so_levels ob)) in
+      let g21 := law (counts_noninc (so_levels ob)) (1 <=? g20)%Z in
+      (* Nice *)
+      let '(na, nb) := lin_start mn mx in
+      let rn := lin_search no base eb na nb true in
+      let '(x, y) := lin_nice_from base eb na nb rn in
+      let changed := negb (Qeqb x na && Qeqb y nb) in
+      let found := match rn with FL_ok _ => true | _ => false end in
+      let rep := lin_nice_rep_b base eb na nb rn in
+      let tag0 := Z.lor (match r with FL_ok _ => 1 | _ => 0 end)
+                 (Z.lor (if reversed then 2 else 0)
+                 (Z.lor (if degenerate then 4 else 0)
+                 (Z.lor (if found then 8 else 0)
+                 (Z.lor (if changed then 16 else 0)
+                 (Z.lor (if negb (o_minlevel o =? 0)%Z || negb (o_maxlevel o =? 0)%Z then 32 else 0)
+                        (if (base =? 0)%Z then 0 else 64))))))%Z in
+      let amb := match r with FL_ok l => lin_amb_level base eb a b false l || lin_amb_level base eb a b false (l - 1) | _ => false end
+                 || match rn with FL_ok l => lin_amb_level base eb na nb true l | _ => false end in
+      let tag := Z.lor tag0 (if amb then 128 else 0)%Z in
+      match so_nmin ob, so_nmax ob with
+      | XFin ao, XFin bo =>
+          let g30 := grp ((so_nst ob =? 0)%Z && within (tolv x) x ao && within (tolv y) y bo)
+                         (fun _ => (so_nst ob =? 0)%Z && lin_nice_adm no base eb na nb tolv rn ao bo) in
+          (* on observed values: the domain never shrinks *)
+          let g35 := law (Qleb ao a && Qleb b bo) false in
+          (* the object after Nice holds [ao, bo]: Ticks(o) on it, and Nice(o) once more *)
+          let deg3 := Qeqb ao bo in
+          let '(a3, b3) := lin_order ao bo in
+          let r3 := if deg3 then FL_fail else lin_search no base eb a3 b3 false in
+          let g36 := grp (ticks_exact (lin_ticks_from base eb ao bo no r3) (so_st3 ob) tolv (so_major3 ob) None)
+                         (fun _ => negb deg3 && (so_st3 ob =? 0)%Z && lin_ticks_adm no base eb a3 b3 tolv r3 (so_major3 ob) None) in
+          let '(na3, nb3) := lin_start ao bo in
+          let rn3 := lin_search no base eb na3 nb3 true in
+          let '(x3, y3) := lin_nice_from base eb na3 nb3 rn3 in
+          let g37 := grp ((so_nst2 ob =? 0)%Z && xwithin (tolv x3) (XFin x3) (so_nmin2 ob) && xwithin (tolv y3) (XFin y3) (so_nmax2 ob))
+                         (fun _ => (so_nst2 ob =? 0)%Z &&
+                                   match so_nmin2 ob, so_nmax2 ob with
+                                   | XFin a2, XFin b2 => lin_nice_adm no base eb na3 nb3 tolv rn3 a2 b2
+                                   | _, _ => false end) in
+          (* laws on the observed values (Max >= 3); a borderline Nice / Ticks-after-Nice makes them borderline *)
+          let bl := (1 <=? g30)%Z || (1 <=? g36)%Z || (1 <=? g37)%Z in
+          let g40 := law ((nomax <? 3)%Z ||
+                          ((so_nst2 ob =? 0)%Z && xwithin (tolv ao) (XFin ao) (so_nmin2 ob) && xwithin (tolv bo) (XFin bo) (so_nmax2 ob))) bl in
+          let g41 := law ((nomax <? 3)%Z || negb rep ||
+                          match first_last (so_major3 ob) with
+                          | Some (f, l) => xwithin (tolv ao) (XFin ao) f && xwithin (tolv bo) (XFin bo) l
+                          | None => false
+                          end) bl in
+          let g43 := law (Qeqb ao bo || (xwithin e12 (XFin 0) (so_map0 ob) && xwithin e12 (XFin 1) (so_map1 ob))) false in
+          let g45 := law ((nomax <? 3)%Z || negb rep ||
+                          match first_two (so_major3 ob), last_two (so_major3 ob) with
+                          | Some (t0, t1), Some (u0, u1) =>
+                              Qleb (na - ao) (t1 - t0 + tolv ao) && Qleb (bo - nb) (u1 - u0 + tolv bo)
+                          | _, _ => false
+                          end) bl in
+          conclude tag [(g10, 10%Z); (g20, 20%Z); (g21, 21%Z); (g30, 30%Z); (g35, 35%Z); (g36, 36%Z); (g37, 37%Z);
+                        (g40, 40%Z); (g41, 41%Z); (g43, 43%Z); (g45, 45%Z)]
+      | _, _ => conclude tag [(2%Z, 42%Z)]
+      end
+  end.
+Definition check_linear : parser (list Z) := do c <- p_sccase; pend (judge_linear c).
 
 (* ---------- kind 2: Log ---------- *)
 (* a candidate minor tick within 1e-12 (relative) of a domain end without being equal to it *)
+Definition near_end (tick emin emax : Q) : bool :=
+  (negb (Qeqb tick emin) && Qleb (Qabs (tick - emin)) (e12 * emin)) ||
+  (negb (Qeqb tick emax) && Qleb (Qabs (tick - emax)) (e12 * emax)).
 Fixpoint minor_amb_run (cnt : nat) (i : Z) (step emin emax : Q) : bool :=
   match cnt with
   | O => false
-  | S j => let tick := inject_Z i * step in
-           (negb (Qeqb tick emin) && Qleb (Qabs (tick - emin)) (e12 * emin)) ||
-           (negb (Qeqb tick emax) && Qleb (Qabs (tick - emax)) (e12 * emax)) ||
-           minor_amb_run j (i + 1)%Z step emin emax
+  | S j => near_end (inject_Z i * step) emin emax || minor_amb_run j (i + 1)%Z step emin emax
   end.
 Fixpoint minor_amb (n : nat) (b f : Z) (emin emax : Q) : bool :=
   match n with
   | O => false
   | S m => minor_amb_run (Z.to_nat (b - 1)) 1 (qpow b f) emin emax || minor_amb m b (f + 1)%Z emin emax
   end.
+(* the minor ticks with the ones near an end marked optional (and present even if just outside) *)
+Fixpoint minor_run_opt (cnt : nat) (i : Z) (step emin emax : Q) : list (Q * bool) :=
+  match cnt with
+  | O => []
+  | S j => let tick := inject_Z i * step in
+           (if near_end tick emin emax then [(tick, true)]
+            else if Qleb emin tick && Qleb tick emax then [(tick, false)] else [])
+           ++ minor_run_opt j (i + 1)%Z step emin emax
+  end.
+Fixpoint minor_seq_opt (n : nat) (b f : Z) (emin emax : Q) : list (Q * bool) :=
+  match n with
+  | O => []
+  | S m => minor_run_opt (Z.to_nat (b - 1)) 1 (qpow b f) emin emax ++ minor_seq_opt m b (f + 1)%Z emin emax
+  end.
+Definition log_at_opt (b : Z) (e : logexp) (neg : bool) (emin emax : Q) (roundOut : bool) (level : Z) : list (Q * bool) :=
+  let t := if (level <? 0)%Z then
+             let '(f, l) := log_first_last e true 0 in minor_seq_opt (Z.to_nat (l - f + 1)) b f emin emax
+           else
+             let '(f, l) := log_first_last e roundOut level in
+             map (fun q => (q, false)) (pow_seq (Z.to_nat (l - f + 1)) b f (2 ^ level)%Z) in
+  if neg then rev (map (fun p => (- fst p, snd p)) t) else t.
+
+(* every way to take the undecided (N_border) slack decisions of log_exps *)
+Definition near_choices (n : near3) (vin vout : Z) : list Z :=
+  match n with N_inside => [vin] | N_outside => [vout] | N_border => [vin; vout] end.
+Definition log_exps_adm (b : Z) (emin emax : Q) : list logexp :=
+  let t := emax / emin in
+  let mu := log_mu emin emax in
+  let fmin := floor_log b emin in let cmin := ceil_log b emin in
+  let fmax := floor_log b emax in let cmax := ceil_log b emax in
+  let n1 := near (qpow b fmin) emin t mu in
+  let n2 := near emax (qpow b cmax) t mu in
+  let n3 := near emin (qpow b cmin) t mu in
+  let n4 := near (qpow b fmax) emax t mu in
+  flat_map (fun i1 => flat_map (fun i2 => flat_map (fun i3 => map (fun i4 => mkLE i1 i2 i3 i4 false)
+    (near_choices n4 fmax cmax)) (near_choices n3 cmin fmin)) (near_choices n2 cmax fmax)) (near_choices n1 fmin cmin).
 
 (* above level [log_cap] 2^level exceeds every admitted exponent in absolute value, so
    firstN and lastN (quotients by 2^level) no longer change: the count is constant *)
@@ -223,58 +434,153 @@ Definition log_cap (e : logexp) : Z :=
 Definition log_count_capped (e : logexp) (roundOut : bool) (level : Z) : Z :=
   log_count e roundOut (Z.min level (log_cap e)).
 
-Definition check_log : parser (list Z) :=
-  do base <- pZ; do mn <- pQ; do mx <- pQ; do omax <- pZ; do minl <- pZ; do maxl <- pZ;
-  do ob <- p_scobs;
-  (* a Log scale as NewLog returns it: base >= 2, Min <= Max, non-zero ends of one sign *)
-  if negb ((2 <=? base)%Z && Qleb mn mx && Qltb 0 (mn * mx)) then (fun _ => None) else
-  let o := mkOpts omax minl maxl in
+(* the model's Ticks / Nice given the exponents and the result of the level search
+   (Proofs.CheckC17.log_ticks_from_eq, log_nice_from_eq: these ARE log_ticks_gen, log_nice_gen) *)
+Definition log_search (o : tickopts) (e : logexp) (roundOut : bool) : flres :=
+  find_level o (log_count_capped e roundOut) 0.
+Definition log_ticks_from (b : Z) (mn mx : Q) (o : tickopts) (e : logexp) (neg : bool) (emin emax : Q) (r : flres) : ticks_res :=
+  if (o_max o <=? 0)%Z then TR_none
+  else if Qeqb mn mx then TR_ticks [mn] [mx]
+  else match r with
+       | FL_ok l => TR_ticks (log_ticks_at' b e neg emin emax false l) (log_ticks_at' b e neg emin emax false (l - 1))
+       | _ => TR_none
+       end.
+Definition log_nice_from (b : Z) (mn mx : Q) (e : logexp) (neg : bool) (emin emax : Q) (rn : flres) : Q * Q :=
+  if Qeqb mn mx then (mn, mx) else
+  match rn with
+  | FL_ok l =>
+      let '(f, la) := log_first_last e true l in
+      let k := (2 ^ l)%Z in
+      let nmn := qpow b (f * k) in let nmx := qpow b (la * k) in
+      let nemin := if log_end_ok b k f nmn && Qleb nmn emin then nmn else emin in
+      let nemax := if log_end_ok b k la nmx && Qleb emax nmx then nmx else emax in
+      if neg then (- nemax, - nemin) else (nemin, nemax)
+  | _ => (mn, mx)
+  end.
+
+(* Ticks(o) for one admissible choice of the exponents, minor ticks near an end optional *)
+Definition log_ticks_adm1 (o : tickopts) (b : Z) (neg : bool) (emin emax : Q) (tolv : Q -> Q)
+    (major : list xreal) (minor : option (list xreal)) (e' : logexp) : bool :=
+  match log_search o e' false with
+  | FL_ok l => close_list_opt tolv (log_at_opt b e' neg emin emax false l) major &&
+               match minor with Some mi => close_list_opt tolv (log_at_opt b e' neg emin emax false (l - 1)) mi | None => true end
+  | _ => match major, minor with [], None => true | [], Some [] => true | _, _ => false end
+  end.
+Definition log_level_exact (b : Z) (e : logexp) (neg : bool) (emin emax : Q) (tolv : Q -> Q) (lv : levobs) : bool :=
+  let l := lv_level lv in
+  (lv_st lv =? 0)%Z && (lv_count lv =? log_count e false l)%Z &&
+  close_list tolv (log_ticks_at' b e neg emin emax false l) (lv_ticks lv).
+Definition log_level_adm1 (b : Z) (neg : bool) (emin emax : Q) (tolv : Q -> Q) (lv : levobs) (e' : logexp) : bool :=
+  let l := lv_level lv in
+  (lv_st lv =? 0)%Z && (lv_count lv =? log_count e' false l)%Z &&
+  ((l <? 0)%Z || (lv_count lv =? Z.of_nat (length (lv_ticks lv)))%Z) &&
+  close_list_opt tolv (log_at_opt b e' neg emin emax false l) (lv_ticks lv).
+
+Definition log_nice_rep_b (b : Z) (e : logexp) (rn : flres) : bool :=
+  match rn with
+  | FL_ok l => let '(f, la) := log_first_last e true l in
+               let k := (2 ^ l)%Z in
+               log_end_ok b k f (qpow b (f * k)) && log_end_ok b k la (qpow b (la * k))
+  | _ => false
+  end.
+
+(* a Log scale as NewLog returns it: base >= 2, Min <= Max, non-zero ends of one sign *)
+Definition log_pre (base : Z) (mn mx : Q) : bool := (2 <=? base)%Z && Qleb mn mx && Qltb 0 (mn * mx).
+
+(* spacing law 45 on a positive (folded) domain: the new ends lie within one ratio of
+   neighbouring major ticks of the old ones *)
+Definition xs_fin (l : list xreal) : option (list Q) :=
+  fold_right (fun x acc => match x, acc with XFin q, Some t => Some (q :: t) | _, _ => None end) (Some []) l.
+Definition log_law45 (neg : bool) (emin emax a' b' : Q) (major3 : list xreal) : bool :=
+  match xs_fin major3 with
+  | None => false
+  | Some t =>
+      let t := if neg then rev (map Qopp t) else t in
+      match t, rev t with
+      | t0 :: t1 :: _, u1 :: u0 :: _ =>
+          Qleb (emin * t0) (a' * t1 * (1 + e9)) && Qleb (b' * u0) (emax * u1 * (1 + e9))
+      | _, _ => false
+      end
+  end.
+
+Definition judge_log (c : sccase) : list Z :=
+  let base := sc_base c in let mn := sc_mn c in let mx := sc_mx c in let o := sc_o c in let ob := sc_ob c in
+  let omax := o_max o in
+  let no := so_no ob in let nomax := o_max no in
   let tolv := fun v : Q => e9 * Qabs v in
   let '(neg, emin, emax) := log_fold mn mx in
   let e := log_exps base emin emax in
   let degenerate := Qeqb mn mx in
-  let r := if degenerate then FL_fail else find_level o (log_count_capped e false) 0 in
-  let rn := if degenerate then FL_fail else find_level o (log_count_capped e true) 0 in
+  let r := if degenerate then FL_fail else log_search o e false in
+  let rn := if degenerate then FL_fail else log_search no e true in
+  let found := match rn with FL_ok _ => true | _ => false end in
+  let rep := log_nice_rep_b base e rn in
   let '(f0, l0) := log_first_last e true 0 in
   let uses_minor := match r with FL_ok l => (l <=? 0)%Z | _ => false end in
   let mamb := if uses_minor || existsb (fun lv => (lv_level lv <? 0)%Z) (so_levels ob)
               then minor_amb (Z.to_nat (l0 - f0 + 1)) base f0 emin emax else false in
-  let amb_t := negb degenerate && (le_amb e || (uses_minor && mamb)) in
-  let ticks_ok :=
-    match log_ticks_gen log_count_capped base mn mx o with
-    | TR_ticks ma mi => (so_st ob =? 0)%Z && close_list tolv ma (so_major ob) && close_list tolv mi (so_minor ob)
-    | TR_none => (so_st ob =? 0)%Z && match so_major ob, so_minor ob with [], [] => true | _, _ => false end
-    | TR_panic => false
-    end in
-  let lv := map (fun lv => let l := lv_level lv in
-                   ((lv_st lv =? 0)%Z && (lv_count lv =? log_count e false l)%Z &&
-                    close_list tolv (log_ticks_at' base e neg emin emax false l) (lv_ticks lv),
-                    le_amb e || ((l <? 0)%Z && mamb))) (so_levels ob) in
-  let lv_ok := forallb fst lv in let lv_amb := existsb snd lv in
-  let '(x, y) := log_nice_gen log_count_capped base mn mx o in
-  let nice_ok := (so_nst ob =? 0)%Z && xwithin (tolv x) (XFin x) (so_nmin ob) && xwithin (tolv y) (XFin y) (so_nmax ob) in
+  let adm := fun _ : unit => if le_amb e then log_exps_adm base emin emax else [e] in
+  let g10 := grp (ticks_exact (log_ticks_from base mn mx o e neg emin emax r) (so_st ob) tolv (so_major ob) (Some (so_minor ob)))
+                 (fun u => negb degenerate && (1 <=? omax)%Z && (so_st ob =? 0)%Z &&
+                           existsb (log_ticks_adm1 o base neg emin emax tolv (so_major ob) (Some (so_minor ob))) (adm u)) in
+  let g20 := grp (forallb (log_level_exact base e neg emin emax tolv) (so_levels ob))
+                 (fun u => negb degenerate &&
+                           forallb (fun lv => log_level_exact base e neg emin emax tolv lv ||
+                                              existsb (log_level_adm1 base neg emin emax tolv lv) (adm u)) (so_levels ob)) in
+  let g21 := law (counts_noninc (so_levels ob)) (1 <=? g20)%Z in
+  let '(x, y) := log_nice_from base mn mx e neg emin emax rn in
   let changed := negb (Qeqb x mn && Qeqb y mx) in
-  let amb_n := negb degenerate && le_amb e in
   let tag := Z.lor 256
             (Z.lor (match r with FL_ok l => if (l =? 0)%Z then 1 else 512 | _ => 0 end)
             (Z.lor (if neg then 2 else 0)
             (Z.lor (if degenerate then 4 else 0)
-            (Z.lor (match rn with FL_ok _ => 8 | _ => 0 end)
+            (Z.lor (if found then 8 else 0)
             (Z.lor (if changed then 16 else 0)
-            (Z.lor (if negb (minl =? 0)%Z || negb (maxl =? 0)%Z then 32 else 0)
+            (Z.lor (if negb (o_minlevel o =? 0)%Z || negb (o_maxlevel o =? 0)%Z then 32 else 0)
                    (if le_amb e || mamb then 128 else 0)))))))%Z in
-  pend (match first_fail [(ticks_ok, 10%Z)] with
-        | Some p => if amb_t then verdict V_BORDERLINE tag p [] else verdict V_MISMATCH tag p []
-        | None =>
-          match first_fail [(lv_ok, 20%Z)] with
-          | Some p => if lv_amb then verdict V_BORDERLINE tag p [] else verdict V_MISMATCH tag p []
-          | None =>
-            match first_fail [(nice_ok, 30%Z)] with
-            | Some p => if amb_n then verdict V_BORDERLINE tag p [] else verdict V_MISMATCH tag p []
-            | None => conclude tag amb_n (nice_laws omax (match rn with FL_ok _ => true | _ => false end) tolv ob)
-            end
-          end
-        end).
+  match so_nmin ob, so_nmax ob with
+  | XFin ao, XFin bo =>
+      let g30 := grp ((so_nst ob =? 0)%Z && within (tolv x) x ao && within (tolv y) y bo)
+                     (fun u => negb degenerate && (so_nst ob =? 0)%Z &&
+                               existsb (fun e' => let '(x', y') := log_nice_from base mn mx e' neg emin emax (log_search no e' true) in
+                                                  within (tolv x') x' ao && within (tolv y') y' bo) (adm u)) in
+      let g35 := law (Qleb ao mn && Qleb mx bo) false in
+      if negb (Qleb ao bo && Qltb 0 (ao * bo)) then conclude tag [(g10, 10%Z); (g20, 20%Z); (g21, 21%Z); (g30, 30%Z); (g35, 35%Z); (2%Z, 42%Z)] else
+      (* the object after Nice holds [ao, bo] *)
+      let '(neg3, emin3, emax3) := log_fold ao bo in
+      let e3 := log_exps base emin3 emax3 in
+      let deg3 := Qeqb ao bo in
+      let r3 := if deg3 then FL_fail else log_search no e3 false in
+      let rn3 := if deg3 then FL_fail else log_search no e3 true in
+      let adm3 := fun _ : unit => if le_amb e3 then log_exps_adm base emin3 emax3 else [e3] in
+      let g36 := grp (ticks_exact (log_ticks_from base ao bo no e3 neg3 emin3 emax3 r3) (so_st3 ob) tolv (so_major3 ob) None)
+                     (fun u => negb deg3 && (1 <=? nomax)%Z && (so_st3 ob =? 0)%Z &&
+                               existsb (log_ticks_adm1 no base neg3 emin3 emax3 tolv (so_major3 ob) None) (adm3 u)) in
+      let '(x3, y3) := log_nice_from base ao bo e3 neg3 emin3 emax3 rn3 in
+      let g37 := grp ((so_nst2 ob =? 0)%Z && xwithin (tolv x3) (XFin x3) (so_nmin2 ob) && xwithin (tolv y3) (XFin y3) (so_nmax2 ob))
+                     (fun u => negb deg3 && (so_nst2 ob =? 0)%Z &&
+                               match so_nmin2 ob, so_nmax2 ob with
+                               | XFin a2, XFin b2 =>
+                                   existsb (fun e' => let '(x', y') := log_nice_from base ao bo e' neg3 emin3 emax3 (log_search no e' true) in
+                                                      within (tolv x') x' a2 && within (tolv y') y' b2) (adm3 u)
+                               | _, _ => false end) in
+      let bl := (1 <=? g30)%Z || (1 <=? g36)%Z || (1 <=? g37)%Z in
+      let g40 := law ((nomax <? 3)%Z ||
+                      ((so_nst2 ob =? 0)%Z && xwithin (tolv ao) (XFin ao) (so_nmin2 ob) && xwithin (tolv bo) (XFin bo) (so_nmax2 ob))) bl in
+      let g41 := law ((nomax <? 3)%Z || negb rep ||
+                      match first_last (so_major3 ob) with
+                      | Some (f, l) => xwithin (tolv ao) (XFin ao) f && xwithin (tolv bo) (XFin bo) l
+                      | None => false
+                      end) bl in
+      let g43 := law (Qeqb ao bo || (xwithin e12 (XFin 0) (so_map0 ob) && xwithin e12 (XFin 1) (so_map1 ob))) false in
+      let g45 := law ((nomax <? 3)%Z || negb rep || log_law45 neg emin emax emin3 emax3 (so_major3 ob)) bl in
+      conclude tag [(g10, 10%Z); (g20, 20%Z); (g21, 21%Z); (g30, 30%Z); (g35, 35%Z); (g36, 36%Z); (g37, 37%Z);
+                    (g40, 40%Z); (g41, 41%Z); (g43, 43%Z); (g45, 45%Z)]
+  | _, _ => conclude tag [(2%Z, 42%Z)]
+  end.
+Definition check_log : parser (list Z) :=
+  do c <- p_sccase;
+  if negb (log_pre (sc_base c) (sc_mn c) (sc_mx c)) then (fun _ => None) else pend (judge_log c).
 
 Definition check_C17 (line : list Z) : list Z :=
   match line with
